@@ -155,6 +155,13 @@ pub fn install(node: u32) {
                     }
                     if hit(d.rnd_enospc_pm) && (op == "write" || op == "std.write") {
                         d.rnd_budget -= 1;
+                        // a disk filling up: nothing, or a seeded prefix of the write, fits
+                        if len > 1 && sim::s(2) == 1 {
+                            let n = sim::s(len as u32) as usize;
+                            sim::fault_fired("disk_enospc_after_partial_write");
+                            d.bytes_written += n as u64;
+                            return FsAction::PartialThenFail(n, libc::ENOSPC);
+                        }
                         sim::fault_fired("disk_enospc");
                         return FsAction::Fail(libc::ENOSPC);
                     }
